@@ -97,13 +97,31 @@ def first_diff(a, b, path='result'):
 # ---------------------------------------------------------------------------
 # results of every kind from a JSON case
 
-def _dataset(shape, vals, errs, name):
+def _layout(arr, layout):
+    '''the same numbers in another memory layout (the logical content is what tobytes() snapshots)'''
+    if layout == 'F' and arr.ndim >= 2:
+        return np.asfortranarray(arr)
+    if layout == 'T' and arr.ndim >= 2:          # transposed view of a C array
+        return np.ascontiguousarray(arr.T).T
+    if layout == 'S':                             # strided view: every second cell of a larger buffer
+        big = np.zeros(tuple(2 * n for n in arr.shape), dtype=arr.dtype)
+        view = big[tuple(slice(None, None, 2) for _ in arr.shape)]
+        view[...] = arr
+        return view
+    if layout == 'R' and arr.ndim >= 1:           # negative stride
+        return np.ascontiguousarray(arr[::-1])[::-1]
+    return arr
+
+
+def _dataset(shape, vals, errs, name, what='', layout='C'):
     from valjean.eponine.dataset import Dataset
     if not shape:
-        return Dataset(np.float64(vals[0]), np.float64(errs[0]), name=name)
-    bins = OrderedDict((f'x{k}', np.arange(n + 1, dtype=float) * (k + 1)) for k, n in enumerate(shape))
-    return Dataset(np.array(vals, dtype=float).reshape(shape), np.array(errs, dtype=float).reshape(shape),
-                   bins=bins, name=name)
+        return Dataset(np.float64(vals[0]), np.float64(errs[0]), name=name, what=what)
+    bins = OrderedDict((f'x{k}', _layout(np.arange(n + 1, dtype=float) * (k + 1), layout if layout in 'SR' else 'C'))
+                       for k, n in enumerate(shape))
+    return Dataset(_layout(np.array(vals, dtype=float).reshape(shape), layout),
+                   _layout(np.array(errs, dtype=float).reshape(shape), layout),
+                   bins=bins, name=name, what=what)
 
 
 def build_test(case):
@@ -114,24 +132,32 @@ def build_test(case):
         from valjean.gavroche.stat_tests.chi2 import TestChi2
         from valjean.gavroche.stat_tests.bonferroni import TestBonferroni, TestHolmBonferroni
         shape = tuple(data['shape'])
-        dsets = [_dataset(shape, v, e, f'ds{k}') for k, (v, e) in enumerate(zip(data['vals'], data['errs']))]
+        dnames = data.get('names') or [f'ds{k}' for k in range(len(data['vals']))]
+        whats = data.get('whats') or [''] * len(dnames)
+        layouts = data.get('layouts') or ['C'] * len(dnames)
+        dsets = [_dataset(shape, v, e, dnames[k], whats[k], layouts[k])
+                 for k, (v, e) in enumerate(zip(data['vals'], data['errs']))]
         labels = data.get('labels')
+        tname = data.get('tname')
+        descr = data.get('descr', '')
         if kind in ('equal', 'failed'):
-            return TestEqual(*dsets, name='eq', labels=labels)
+            return TestEqual(*dsets, name=tname or 'eq', description=descr, labels=labels)
         if kind == 'approx':
-            return TestApproxEqual(*dsets, name='approx', labels=labels)
+            return TestApproxEqual(*dsets, name=tname or 'approx', description=descr, labels=labels)
         if kind == 'chi2':
-            return TestChi2(*dsets, name='chi2', labels=labels)
-        stud = TestStudent(*dsets, name='student', ndf=data.get('ndf'), labels=labels)
+            return TestChi2(*dsets, name=tname or 'chi2', description=descr, labels=labels)
+        stud = TestStudent(*dsets, name=tname or 'student', description=descr, ndf=data.get('ndf'),
+                           labels=labels)
         if kind == 'student':
             return stud
         cls = TestBonferroni if kind == 'bonf' else TestHolmBonferroni
-        return cls(name=kind, test=stud, labels=labels)
+        return cls(name=tname or kind, description=descr, test=stud, labels=labels)
     if kind == 'meta':
         from valjean.gavroche.diagnostics.metadata import TestMetadata
         dmd = OrderedDict((f'sample{s}', {f'key{k}': v for k, v in enumerate(row) if v is not None})
                           for s, row in enumerate(data['values']))
-        return TestMetadata(dmd, name='md', labels=data.get('labels'))
+        return TestMetadata(dmd, name=data.get('tname') or 'md', description=data.get('descr', ''),
+                            labels=data.get('labels'))
     from valjean.cosette.task import TaskStatus
     from valjean.gavroche.diagnostics import stats
     from valjean.gavroche.diagnostics.metadata import TestMetadata
@@ -219,7 +245,7 @@ def gen_data(rng, kind):
         if kind == 'chi2' and not shape:
             shape = [3]
         nbin = int(np.prod(shape)) if shape else 1
-        nds = rng.choice([2, 2, 3])
+        nds = rng.choice([2, 2, 3, 3, 4])
         lo = -10. if rng.random() < 0.15 else 1.      # mixed signs now and then (in-place abs / clip)
         ref = [round(rng.uniform(lo, 20.), 3) for _ in range(nbin)]
         vals, errs = [ref], [[round(rng.uniform(0.1, 1.), 3) for _ in range(nbin)]]
@@ -237,6 +263,28 @@ def gen_data(rng, kind):
                 arr = rng.choice([vals, errs] if r < 0.25 else [errs])
                 arr[rng.randrange(nds)][rng.randrange(nbin)] = rng.choice(SPECIALS)
         data = {'shape': shape, 'vals': vals, 'errs': errs, 'labels': gen_labels(rng)}
+        # attributes other than arrays: dataset names (unique / shared / empty), `what`, test name and
+        # description drawn from small pools so that they coincide across datasets and across results
+        mode = rng.random()
+        if mode < 0.4:
+            data['names'] = [f'ds{k}' for k in range(nds)]
+        elif mode < 0.7:
+            pool = rng.choice([['same'], [''], ['a', 'a', 'b'], ['', 'x'], ['ref']])
+            data['names'] = [rng.choice(pool) for _ in range(nds)]
+        else:
+            data['names'] = [rng.choice(['', 'a', 'b', 'same', f'ds{k}']) for k in range(nds)]
+        data['whats'] = [rng.choice(['', 'flux', 'flux', 'dose'])] * nds if rng.random() < 0.7 else \
+            [rng.choice(['', 'flux', 'dose']) for _ in range(nds)]
+        data['tname'] = rng.choice([None, 'test', 'test', 'same', 'T1'])
+        data['descr'] = rng.choice(['', '', 'a description', 'same'])
+        # memory layouts of the arrays: C, Fortran, transposed view, strided view, negative stride
+        lay = rng.random()
+        if lay < 0.6:
+            data['layouts'] = ['C'] * nds
+        elif lay < 0.8:
+            data['layouts'] = [rng.choice('FTSR')] * nds
+        else:
+            data['layouts'] = [rng.choice('CFTSR') for _ in range(nds)]
         if kind in ('student', 'bonf', 'holm') and rng.random() < 0.3:
             data['ndf'] = rng.choice([5, 20, 1000])
         if kind == 'failed':
@@ -245,7 +293,8 @@ def gen_data(rng, kind):
     if kind == 'meta':
         nkeys = rng.randint(1, 4)
         return {'values': [[rng.choice([1, 1, 2, 'x', None]) for _ in range(nkeys)]
-                           for _ in range(rng.randint(2, 3))], 'labels': gen_labels(rng)}
+                           for _ in range(rng.randint(2, 3))], 'labels': gen_labels(rng),
+                'tname': rng.choice([None, 'test', 'same']), 'descr': rng.choice(['', 'same'])}
     allgood = rng.random() < 0.3
     tasks = []
     for k in range(rng.choice([0, 1, 2, 3, 5, 8])):
@@ -402,6 +451,12 @@ def run_impl(ctx, case, steps):
     state0 = coq_state(result, names) if stats_like else None
     zsteps = []
     verdict0 = bool(result)
+    from valjean.fingerprint import fingerprint
+    try:
+        fprint0 = fingerprint(test)
+    except Exception as exc:  # noqa
+        fprint0 = ('exc', type(exc).__name__)
+        ctx.count('fingerprint_raises_' + type(exc).__name__)
     prev_after = initial
     for n, op in enumerate(case['ops']):
         before = snap(result)
@@ -427,6 +482,13 @@ def run_impl(ctx, case, steps):
             ctx.oracle_failure(f'operation {n} {op} changes the {kind} result: {first_diff(before, after)} '
                                f':: {case}', case, key='state-changed-by-' + op[0])
         prev_after = after
+        try:
+            fprint = fingerprint(test)
+        except Exception as exc:  # noqa
+            fprint = ('exc', type(exc).__name__)
+        if fprint != fprint0:
+            ctx.oracle_failure(f'fingerprint of the test (the anchor of the report) changed after operation {n} '
+                               f'{op} :: {case}', case, key='fingerprint-changed-by-' + op[0])
         if bool(result) != verdict0:
             ctx.oracle_failure(f'verdict {verdict0} became {bool(result)} after operation {n} {op} '
                                f':: {case}', case, key='verdict-changed-by-' + op[0])
